@@ -11,6 +11,7 @@ From CG Require Import Proofs.LangJudge Proofs.C02Lang.
 From CG Require Import Model.Minimize Spec.DfaEquiv Spec.MinimizeSpec.
 From CG Require Import Proofs.Useful Proofs.RegexFuel Proofs.SubsetFuel Proofs.TreeFacts Proofs.CheckTree.
 From CG Require Import Proofs.WfTrim Proofs.C02Total Proofs.RegexNoPanic Proofs.C02Final Proofs.DistributeLits.
+From CG Require Import Model.Ambiguity Model.Driver Proofs.AmbTotal Proofs.DriverCorrect.
 
 (** (a) L-glushkov for the model's tables: for the tree [t] of an expression (n-ary [Cat] with the
     skip-nullable loop, [Or], [Many1 x = Cat [x; Star x]] sharing [x]) and its end marker [e], a
@@ -385,6 +386,98 @@ Check C02_total :
             forall w, accepts_items (mkcdfa m subs) w <-> denotes (v_expr v) w.
 Print Assumptions C02_total.
 
+(** *** End to end: [Driver.compile_valid] (no oracle left) *)
+
+(** The ambiguity walk of the model is total on automata whose transitions only use input ids of
+    the pool (in particular on [wf] automata and on what [minimize] returns for them). *)
+Theorem C02_ambiguity_total :
+  forall d, inputs_in_range d ->
+    check_ambiguity_best_effort d = Ok tt \/ exists e, check_ambiguity_best_effort d = Err e.
+Proof. exact check_ambiguity_total. Qed.
+Check C02_ambiguity_total :
+  forall d, inputs_in_range d ->
+    check_ambiguity_best_effort d = Ok tt \/ exists e, check_ambiguity_best_effort d = Err e.
+Print Assumptions C02_ambiguity_total.
+
+Theorem C02_minimised_inputs_in_range :
+  forall d m, wf d -> trim d -> minimize d = Ok m -> inputs_in_range m.
+Proof. exact minimize_inputs_in_range. Qed.
+Check C02_minimised_inputs_in_range :
+  forall d m, wf d -> trim d -> minimize d = Ok m -> inputs_in_range m.
+Print Assumptions C02_minimised_inputs_in_range.
+
+(** The oracle the driver computes for itself is the one the C02 theorems need: every cached id
+    names the minimised raw automaton of its within-word regex, and every within-word regex that
+    occurs is cached. *)
+Theorem C02_driver_oracle :
+  forall pick fuel pl inputs cache subs cache' subs',
+    cache_ok pick fuel pl cache subs ->
+    compile_subs pick fuel inputs pl cache subs = Ok (cache', subs') ->
+    cache_ok pick fuel pl cache' subs' /\
+    (forall rid, assocN rid cache <> None -> assocN rid cache' <> None) /\
+    (forall rid l sp, In (RSub rid l sp) inputs -> assocN rid cache' <> None).
+Proof. intros pick fuel pl. exact (compile_subs_ok pick fuel pl). Qed.
+Check C02_driver_oracle :
+  forall pick fuel pl inputs cache subs cache' subs',
+    cache_ok pick fuel pl cache subs ->
+    compile_subs pick fuel inputs pl cache subs = Ok (cache', subs') ->
+    cache_ok pick fuel pl cache' subs' /\
+    (forall rid, assocN rid cache <> None -> assocN rid cache' <> None) /\
+    (forall rid l sp, In (RSub rid l sp) inputs -> assocN rid cache' <> None).
+Print Assumptions C02_driver_oracle.
+
+(** C02 for the whole model pipeline, no oracle hypothesis: whatever [compile_valid] returns
+    accepts exactly the item words the validated tree denotes (main automaton minimised,
+    within-word automata compiled, minimised and interned by the driver itself). *)
+Theorem C02_driver :
+  forall builtins g sh v pick fuel c,
+    from_grammar builtins g sh = Ok v -> grammar_alts_nonempty g = true ->
+    compile_valid pick fuel v = Ok c ->
+    forall w, accepts_items c w <-> denotes (v_expr v) w.
+Proof. exact driver_correct_from_grammar. Qed.
+Check C02_driver :
+  forall builtins g sh v pick fuel c,
+    from_grammar builtins g sh = Ok v -> grammar_alts_nonempty g = true ->
+    compile_valid pick fuel v = Ok c ->
+    forall w, accepts_items c w <-> denotes (v_expr v) w.
+Print Assumptions C02_driver.
+
+(** the same with the side condition on the tree itself *)
+Theorem C02_driver_tree :
+  forall pick fuel v c,
+    alts_nonempty (v_expr v) = true ->
+    compile_valid pick fuel v = Ok c ->
+    forall w, accepts_items c w <-> denotes (v_expr v) w.
+Proof. exact driver_correct. Qed.
+Check C02_driver_tree :
+  forall pick fuel v c,
+    alts_nonempty (v_expr v) = true ->
+    compile_valid pick fuel v = Ok c ->
+    forall w, accepts_items c w <-> denotes (v_expr v) w.
+Print Assumptions C02_driver_tree.
+
+(** Totality: with fuel above [2^(positions+1)] for the main and every within-word regex,
+    [compile_valid] returns an automaton, or the [UnboundedMatchable] diagnostic of the regex
+    stage, or a diagnostic of the ambiguity check -- never a panic, never fuel exhaustion. *)
+Theorem C02_compile_valid_total :
+  forall builtins g sh v pick fuel,
+    from_grammar builtins g sh = Ok v -> grammar_alts_nonempty g = true ->
+    (forall r pl, from_expr (v_expr v) [] = Ok (r, pl) ->
+       enough_fuel fuel r /\ Forall (enough_fuel fuel) pl) ->
+    (exists c, compile_valid pick fuel v = Ok c) \/
+    (exists a b, compile_valid pick fuel v = Err (DRegex (UnboundedMatchable a b))) \/
+    (exists e, compile_valid pick fuel v = Err (DAmb e)).
+Proof. exact driver_total. Qed.
+Check C02_compile_valid_total :
+  forall builtins g sh v pick fuel,
+    from_grammar builtins g sh = Ok v -> grammar_alts_nonempty g = true ->
+    (forall r pl, from_expr (v_expr v) [] = Ok (r, pl) ->
+       enough_fuel fuel r /\ Forall (enough_fuel fuel) pl) ->
+    (exists c, compile_valid pick fuel v = Ok c) \/
+    (exists a b, compile_valid pick fuel v = Err (DRegex (UnboundedMatchable a b))) \/
+    (exists e, compile_valid pick fuel v = Err (DAmb e)).
+Print Assumptions C02_compile_valid_total.
+
 (** Non-vacuity: [--o=(x|y) [b "d" || c]...] -- a composite word, a description, a || level, an
     option and a repetition.  The model compiles it (two pop orders), the within-word automaton
     the model builds satisfies [subs_ok], and the judge says [Equal] on the result. *)
@@ -433,3 +526,15 @@ Proof.
   - split; vm_compute; reflexivity.
 Qed.
 Print Assumptions ex_C02_inhabited.
+
+(** Non-vacuity of the driver theorems: the model pipeline compiles the example tree end to end
+    (one within-word automaton, compiled, minimised and interned by the driver itself). *)
+Example ex_C02_driver_inhabited :
+  alts_nonempty ex_e = true /\
+  exists c, compile_valid pick_first 50 (mkvalid "cmd" ex_e [] [] []) = Ok c /\
+            List.length (c_subs c) = 1%nat /\
+            equiv_dfa_expr (pow2 10) c ex_e = Equal.
+Proof.
+  split; [reflexivity|]. eexists. split; [vm_compute; reflexivity|]. split; vm_compute; reflexivity.
+Qed.
+Print Assumptions ex_C02_driver_inhabited.
